@@ -64,6 +64,8 @@ type cbCtx struct {
 	splitTrees map[string]bool
 	// sm: the callback executed a split or a boundary-crossing delete (merge).
 	sm bool
+	// aset: the callback executed an Array set-by-index (ArraySet operation).
+	aset bool
 }
 
 func newCbCtx(ev map[string]int, role string, d *document.Document) *cbCtx {
